@@ -41,7 +41,32 @@ func newDocURL(reqURL string, hdr http.Header, body []byte) *models.URL {
 	return u
 }
 
-func coqS(s string) string { return coqHex([]byte(s)) }
+// coqS writes a byte string as a packed literal (coq/Ext/Pack.v): 63-bit integers holding up to 7
+// bytes each, the count in bits 56..58.
+func coqS(s string) string {
+	if len(s) == 0 {
+		return "(pk [])"
+	}
+	var b strings.Builder
+	b.WriteString("(pk [")
+	for i := 0; i < len(s); i += 7 {
+		j := i + 7
+		if j > len(s) {
+			j = len(s)
+		}
+		var v uint64
+		for k := i; k < j; k++ {
+			v = v<<8 | uint64(s[k])
+		}
+		v |= uint64(j-i) << 56
+		if i > 0 {
+			b.WriteString("; ")
+		}
+		fmt.Fprintf(&b, "%d%%uint63", v)
+	}
+	b.WriteString("])")
+	return b.String()
+}
 
 func coqSList(l []string) string {
 	items := make([]string, len(l))
